@@ -142,9 +142,9 @@ def r_open(ctx):
         return
     errs = {}
     for b, k, t in rets:
-        if k == 'err':
+        if k in ('err', 'residual'):
             v = paths.err_variant(t)
-            if v:
+            if v and (k == 'err' or v in ERRS):
                 errs.setdefault(v, []).append(b)
     ctx.check(len(set(ERRS) & set(errs)) == 3, rule, 'open/distinct-errors', f.loc(),
               'three distinct error variants ' + ', '.join(ERRS), 'Reader::open no longer returns the three distinct errors %s (found %s)' % (ERRS, sorted(errs)))
@@ -166,9 +166,11 @@ def r_open(ctx):
                     continue
                 if v == 'MissingMetadata' and e[0] == 'disc':
                     g = _calls_in(e[1], 'heed::Database::<KC, DC, C, CDUP>::get')
-                    if g and (key_info(g[0][2][2]) or (None,))[0] == 'metadata' and 0 in e[2]:
+                    okor = _calls_in(e[1], 'Option::<T>::ok_or')
+                    if g and (key_info(g[0][2][2]) or (None,))[0] == 'metadata' and ((0 in e[2] and not okor) or (okor and 1 in e[2])):
+                        # `match get(..)? { None => Err(..) }` (None arm) or `get(..)?.ok_or(Err(..))?` (Break arm of the `?`)
                         good = all(f.dominates(s, o) for o in okb)
-                        why = 'None arm of get(Key::metadata(index))'
+                        why = 'absence of get(Key::metadata(index))'
                 elif v == 'UnmatchingDistance' and e[0] == 'bool':
                     names = [t for t in walk(e[1]) if t[0] == 'call' and t[1].endswith('Distance::name')]
                     meta = [t for t in walk(e[1]) if t[0] == 'field' and t[2] == 'distance']
